@@ -69,6 +69,32 @@ Verdict(dd, rec) ==
   ELSE IF LabelOverflow(dd) THEN "" \* no legal SMILES exists; nothing to compare
   ELSE SemanticClause(dd, rec.out)
 
+(***************************************************************************)
+(* C17: clauses about a logged attribution list (records with field attr:  *)
+(* entries [idx, tok, has, att], att = list of [i, sym]); judged only when *)
+(* the returned string is the specification's string.                      *)
+(***************************************************************************)
+InputSyms(dd) == LET S == SelectSeq(dd.inp, LAMBDA t : t # "[nop]" /\ t # ".")
+                 IN [i \in 1..Len(S) |-> SymOf(dd, S[i])]
+AttrClause(dd, rec) ==
+  LET A == rec.attr
+      Syms == InputSyms(dd)
+  IN IF \E k \in 1..Len(A) :
+          LET e == A[k] L == Len(e.tok)
+          IN ~(e.idx - L + 1 >= 0 /\ e.idx + 1 <= Len(rec.out) /\ Slice(rec.out, e.idx - L + 2, e.idx + 1) = e.tok)
+     THEN "an output token is not at its reported character index"
+     ELSE IF \E k \in 1..Len(A) : A[k].has /\ \E m \in 1..Len(A[k].att) :
+               LET a == A[k].att[m] IN ~(a.i >= 0 /\ a.i + 1 <= Len(Syms) /\ Syms[a.i + 1] = a.sym)
+     THEN "a contributing input token is not the symbol at its reported position"
+     ELSE IF \E n \in 1..Len(dd.otok) :
+               LET o == dd.otok[n]
+               IN ~\E k \in 1..Len(A) :
+                     /\ A[k].idx = o.end - 1 /\ A[k].tok = o.tok /\ A[k].has
+                     /\ {<<A[k].att[m].i, A[k].att[m].sym>> : m \in 1..Len(A[k].att)}
+                           = {<<dd.atoms[o.atom].attr[m].idx, dd.atoms[o.atom].attr[m].sym>> : m \in 1..Len(dd.atoms[o.atom].attr)}
+     THEN "an output atom is not attributed to its creating symbol and enclosing branch symbols"
+     ELSE ""
+
 StepAct ==
   /\ tid <= N /\ ~Terminal(d)
   /\ d' = Step(d)
@@ -80,8 +106,10 @@ StepAct ==
 
 Judge ==
   /\ tid <= N /\ Terminal(d)
-  /\ LET v == IF Precise(tid) THEN Verdict(d, Tr[tid])
+  /\ LET v0 == IF Precise(tid) THEN Verdict(d, Tr[tid])
               ELSE IF Tr[tid].kind \in {"ok", "DecoderError"} THEN "" ELSE "exception type " \o Tr[tid].kind
+         v == IF v0 = "" /\ "attr" \in DOMAIN Tr[tid] /\ d.pc = "done" /\ Tr[tid].out = d.out
+              THEN AttrClause(d, Tr[tid]) ELSE v0
      IN IF v = "" THEN nbad' = nbad
         ELSE /\ PrintT(ToJson([ev |-> "MISMATCH", tid |-> tid, clause |-> v, spec_kind |-> Outcome(d).kind,
                                spec_out |-> Outcome(d).value]))
